@@ -372,6 +372,13 @@ def _parse_multiplier(mult: str, line_i: int) -> Number:
         raise parse_err
 
 
+def _add_weights(total: Number, weight: Number) -> Number:
+    try:
+        return total + weight
+    except TypeError:    # Decimal and Fraction do not mix
+        return fractions.Fraction(total) + fractions.Fraction(weight)
+
+
 def _load_ordered_votes(lines: Iterable[Tuple[Number, List[str]]],
                         nicks: Dict[str, Candidate],
                         ) -> Dict[Tuple[Candidate, ...], Number]:
@@ -394,7 +401,7 @@ def _load_ordered_votes(lines: Iterable[Tuple[Number, List[str]]],
         if indices != tuple(range(1, len(indices)+1)):
             raise STVParseError(f'invalid ranking indices: {indices!r}'
                                 f' on ballot line {line_i}')
-        votes[vote] += mult
+        votes[vote] = _add_weights(votes[vote], mult)
     return votes
 
 
@@ -409,7 +416,7 @@ def _load_unordered_votes(lines: Iterable[Tuple[Number, List[str]]],
         except KeyError as err:
             raise STVParseError(f'unknown candidate in ballot line {line_i}') \
                 from err
-        votes[vote] += mult
+        votes[vote] = _add_weights(votes[vote], mult)
     return votes
 
 
